@@ -277,6 +277,38 @@ def run_oracles(ctx, mult=1):
                            how="harness.props.c07.oracle_a_job / oracle_b_job on this case")
 
 
+def lr_stream(ctx, mult):
+    """error stops inside left-recursive rules under enable_left_recursion:  E <<= E op - T | T  must raise
+    ParseSyntaxException exactly where the iterative grammar  T (op - T)*  does - the Forward's growth loop, which falls
+    back to the previous round when a deeper expansion fails, must do so for ParseException only"""
+    from . import c04
+    from .. import gen_lr
+    jobs, ojobs = [], []
+    i = 0
+    want = ctx.budget(250, 2500) * mult
+    while len(ojobs) < want:
+        rng = random.Random(f"C07-{ctx.seed}-lr{mult}-{i}")
+        i += 1
+        prog, root, it, itr, inputs, meta = gen_lr.direct(rng)
+        if not meta["dash"] or meta["body"] != "MatchFirst" or meta["base_first"]:
+            continue
+        deep = meta["levels"] == 3 and meta["parens"]
+        jobs.append(dict(prog=prog, root=root, inputs=[x for x in inputs if len(x) <= (10 if deep else 40)],
+                         entries=[("parse", ()), ("parseAll", ())], modes=[("lr", None), ("lr", 2)]))
+        ojobs.append(dict(prog=prog, root=root, it_prog=it, it_root=itr, inputs=inputs, meta=meta))
+    if mult == 1:
+        corr_parse.run_jobs(ctx, "model(parseLR)-vs-real:lr-dash", jobs)
+    corr_parse._TIMEOUTS.value = 0
+    res = common.pmap(c04.oracle_job, ojobs)
+    bad = [m for r_ in res for m in r_[1]]
+    ctx.count_cases("oracle:lr-dash-vs-iterative", sum(r_[0] for r_ in res), outcomes={"mismatch": len(bad)},
+                    distinct_keys=[json.dumps([j["prog"], x]) for j in ojobs for x in j["inputs"]])
+    for m in bad[:2]:
+        ctx.fail_input("error stop inside a left-recursive rule backtracked over", {k: m[k] for k in ("prog", "root", "input", "meta")},
+                       m["expected"], m["actual"], theorem="C07 statement (LR rule vs iterative equivalent)",
+                       how="harness.props.c04.oracle_job")
+
+
 def run(ctx):
     pp = common.import_pyparsing()
     ctx.proof_leg("PPProofs.Props.C07", THEOREMS)
@@ -303,12 +335,14 @@ def run(ctx):
         ctx.fail_input("fatal exception / error stop backtracked over", {k: m[k] for k in m if k not in ("expected", "actual")},
                        m["expected"], m["actual"], theorem="C07 oracle B", how="harness.props.c07.oracle_b_job")
     run_oracles(ctx, 1)
+    lr_stream(ctx, 1)
     if ctx.broken and not ctx.fail_inputs:
         run_oracles(ctx, 5)
+        lr_stream(ctx, 4)
 
 
 def replay(data):
-    if data.get("replay_kind") == "failing-input":
+    if data.get("replay_kind") == "failing-input" and "meta" not in data["case"]:
         c = data["case"]
         if c.get("oracle") == "A":
             return bool(oracle_a_job(dict(prog=c["prog"], root=c["root"], target=c["target"], inputs=[c["input"]]))[1])
